@@ -334,9 +334,11 @@ func (r *rewriter) walk() {
 
 func main() {
 	repo := flag.String("repo", "/repo", "repository root")
-	out := flag.String("out", "", "output directory (overlay.json is written there)")
+	out_ := flag.String("out", "", "output directory (overlay.json is written there)")
+	out := out_
 	pkgs := flag.String("pkgs", "pkg/network,pkg/network/echo,pkg/network/exchange", "comma-separated package dirs to instrument")
 	verif := flag.String("verif", "/verif", "verification root (location of mc/mcrt and the dump template)")
+	seqFiles := flag.String("seq-errgroup", "", "comma-separated repo-relative files whose errgroup import is swapped for the sequential shim")
 	flag.Parse()
 	if *out == "" {
 		fmt.Fprintln(os.Stderr, "need -out")
@@ -422,6 +424,35 @@ func main() {
 		}
 		os.Exit(3)
 	}
+	// deterministic fork-join: swap errgroup for the sequential shim in the listed files (see mcrt/seqgroup)
+	for _, rel := range strings.Split(*seqFiles, ",") {
+		if rel == "" {
+			continue
+		}
+		path := filepath.Join(*repo, rel)
+		readFrom := path
+		if m, ok := mutant[path]; ok {
+			readFrom = m
+		}
+		src, err := os.ReadFile(readFrom)
+		if err != nil {
+			fmt.Fprintln(os.Stderr, "seq-errgroup: cannot read", rel, "(file moved? update the list):", err)
+			os.Exit(3)
+		}
+		const imp = `"golang.org/x/sync/errgroup"`
+		if !strings.Contains(string(src), imp) {
+			fmt.Fprintln(os.Stderr, "seq-errgroup:", rel, "no longer imports errgroup; update the list")
+			os.Exit(3)
+		}
+		out := strings.Replace(string(src), imp, `errgroup "github.com/bronlabs/bron-crypto/pkg/mcrt/seqgroup"`, 1)
+		outPath := filepath.Join(*out_, "seq_"+strings.ReplaceAll(rel, "/", "_"))
+		if err := os.WriteFile(outPath, []byte(out), 0o644); err != nil {
+			panic(err)
+		}
+		replace[path] = outPath
+		report = append(report, rel+": errgroup -> seqgroup")
+	}
+	replace[filepath.Join(*repo, "pkg/mcrt/seqgroup/seqgroup.go")] = filepath.Join(*verif, "mc/mcrt/seqgroup/seqgroup.go")
 	// mount the runtime inside the repo module and add the state dump to package network
 	replace[filepath.Join(*repo, "pkg/mcrt/mcrt.go")] = filepath.Join(*verif, "mc/mcrt/mcrt.go")
 	replace[filepath.Join(*repo, "pkg/network/zz_verif_dump.go")] = filepath.Join(*verif, "mc/instrument/zz_verif_dump.go.txt")
